@@ -61,6 +61,7 @@ type c03Shape struct {
 	Swap    bool // the application first serves with as many do-nothing middleware, which Handlers() then replaces by the real ones
 	Info    bool `json:",omitempty"` // handlers that write send an informational status (100+position) instead of 201+position
 	Sig     int  `json:",omitempty"` // >0: handlers that return nothing use, by position, the other handler types (func(http.ResponseWriter, *http.Request), http.HandlerFunc, a reflectively invoked func(Context, *http.Request)), shifted by Sig
+	Hollow  bool `json:",omitempty"` // in every group, a nested group without handlers (holding another route) is opened and closed before the next level / the probed route is registered
 	Multi   bool `json:",omitempty"` // the route is registered through Routes with three method names given as separate leading strings
 	Wrap    bool `json:",omitempty"` // a HandlerWrapper (the identity) is configured before anything is registered
 	Head    bool `json:",omitempty"` // AutoHead is on and the request is a HEAD request (served by the chain registered alongside the GET route)
@@ -75,7 +76,7 @@ func (s c03Shape) n() int {
 }
 
 func (s c03Shape) String() string {
-	return fmt.Sprintf("mw=%d group=%d route=%d action=%v flat=%v late=%v swap=%v autohead=%v informational-statuses=%v handler-types=%d handler-wrapper=%v routes-with-three-method-strings=%v", s.M, s.G, s.R, s.Action, s.Flat, s.Late, s.Swap, s.Head, s.Info, s.Sig, s.Wrap, s.Multi)
+	return fmt.Sprintf("mw=%d group=%d route=%d action=%v flat=%v late=%v swap=%v autohead=%v informational-statuses=%v handler-types=%d handler-wrapper=%v routes-with-three-method-strings=%v handler-less-nested-groups=%v", s.M, s.G, s.R, s.Action, s.Flat, s.Late, s.Swap, s.Head, s.Info, s.Sig, s.Wrap, s.Multi, s.Hollow)
 }
 
 type c03Ev struct {
@@ -235,6 +236,9 @@ func c03Build(s c03Shape, strMask int) *c03World {
 	default:
 		var nest func(d int)
 		nest = func(d int) {
+			if s.Hollow && d > 0 {
+				w.f.Group("/hollow", func() { w.f.Get(fmt.Sprintf("/h%d", d), func() {}) })
+			}
 			if d == s.G {
 				get("/x", rh...)
 				sibling()
@@ -534,6 +538,9 @@ func c03Shapes(maxN int, thorough bool) []c03Shape {
 						if r >= 1 {
 							out = append(out, c03Shape{M: m, G: g, R: r, Action: act, Multi: true})
 						}
+						if g >= 1 {
+							out = append(out, c03Shape{M: m, G: g, R: r, Action: act, Hollow: true})
+						}
 						out = append(out, c03Shape{M: m, G: g, R: r, Action: act, Head: true})
 						if g >= 2 {
 							out = append(out, c03Shape{M: m, G: g, R: r, Action: act, Flat: true, Head: true})
@@ -598,7 +605,7 @@ func c03Run(r *core.Run) {
 		}
 		var jobs []job
 		for _, s := range shapes {
-			base := !(s.Flat || s.Late || s.Swap || s.Head || s.Info || s.Sig > 0 || s.Wrap || s.Multi)
+			base := !(s.Flat || s.Late || s.Swap || s.Head || s.Info || s.Sig > 0 || s.Wrap || s.Multi || s.Hollow)
 			if s.n() < pl.minN || (pl.which == 1 && !base) || (pl.which == 2 && base) {
 				continue
 			}
